@@ -370,6 +370,10 @@ func scalarReflectFromGo(schema *schema_j5pb.Field, value interface{}) (protoref
 		case string:
 			return decimalFromString(val)
 
+		case json.Number:
+			// all number types may be given quoted or unquoted
+			return decimalFromString(val.String())
+
 		case *string:
 			if val == nil {
 				return protoreflect.Value{}, nil
